@@ -8,7 +8,7 @@ call (also calls that raised) in every reachable state of each pool, to fixpoint
 from .. import engine_h
 from ..report import Report
 from ..structure import (
-    Alphabet, SWorld, apply_op, canon_world, inv_links, observe, shape,
+    Alphabet, Pumped, SWorld, apply_op, canon_world, inv_links, observe, shape,
 )
 
 PROP = "C01"
@@ -27,6 +27,13 @@ POOLS = {
 }
 
 
+# pumped pools: (list of hub degrees n, depth of the exploration from each pumped state)
+PUMPED = {
+    "quick": dict(ns=list(range(0, 13)), depth=2),
+    "thorough": dict(ns=list(range(0, 13)) + [15, 16, 17, 31, 32, 33], depth=3),
+}
+
+
 class System:
     rebuild = True
 
@@ -34,6 +41,8 @@ class System:
         self.alpha = alpha
 
     def initial(self):
+        if isinstance(self.alpha, Pumped):
+            return self.alpha.initial()
         return SWorld(self.alpha.nv)
 
     def ops(self, w):
@@ -62,8 +71,15 @@ class System:
 
 
 def replay(rec, verbose=False):
-    alpha = Alphabet(**rec["pool"])
-    w = SWorld(alpha.nv)
+    if "pumped_star" in rec["pool"]:
+        pl = rec["pool"]
+        alpha = Pumped(pl["pumped_star"], pl["extra_links"], pl["cls"], pl["maxar"], pl["none_ends"])
+        w = alpha.initial()
+        if verbose:
+            print(f"  start: hub v0 with {alpha.n} links to v1..v{alpha.n}; late = v{alpha.n + 1}, elsewhere = v{alpha.n + 2}")
+    else:
+        alpha = Alphabet(**rec["pool"])
+        w = SWorld(alpha.nv)
     obs = None
     for op in rec["history"]:
         obs = apply_op(w, tuple(op))
@@ -101,6 +117,25 @@ def run(tier, seed, log):
             "level_sizes": res.levels, "wall_s": round(res.wall, 1),
         })
         samples += [{"pool": spec, "history": h} for h in res.sample_histories[-3:]]
+    pump = PUMPED[tier]
+    pstates = ptrans = 0
+    for n in pump["ns"]:
+        alpha = Pumped(n)
+        res = engine_h.explore(System(alpha), seed=seed, max_depth=pump["depth"])
+        for fp, (cnt, rec) in res.viols.items():
+            rec = dict(rec)
+            rec["pool"] = alpha.describe()
+            rep.add("pumped|" + fp, rec, cnt)
+        pstates += res.states
+        ptrans += res.transitions
+        tot["states"] += res.states
+        tot["transitions"] += res.transitions
+        tot["validated"] += res.validated
+        tot["nontrivial"] += res.nontrivial
+    log(f"[{PROP}] pumped stars n={pump['ns']} depth<={pump['depth']}: states={pstates} transitions={ptrans}")
+    pools_ev.append({"pool": "pumped stars (hub with n links; every history of <= depth focused ops from there)",
+                     "hub_degrees": pump["ns"], "depth": pump["depth"], "states": pstates,
+                     "transitions": ptrans, "fixpoint": False})
     rep.coverage = {
         "states": tot["states"],
         "transitions": tot["transitions"],
